@@ -422,7 +422,19 @@ def apply_mod_mapping(match, molecule, graph_out, mol_to_out, out_to_mol):
             else:
                 out_idx = max(graph_out) + 1
             mod_to_out[mod_idx] = out_idx
-            graph_out.add_node(out_idx, **modification.nodes[mod_idx])
+            new_attrs = dict(modification.nodes[mod_idx])
+            if graph_out.nodes:
+                # The new particle comes right after the particles of the
+                # residue it modifies. Unless the modification says otherwise
+                # it belongs to that residue and gets the next charge group,
+                # so that merge_molecule numbers the blocks that follow from
+                # there on, rather than starting over.
+                last_node = graph_out.nodes[max(graph_out)]
+                if 'resid' in last_node:
+                    new_attrs.setdefault('resid', last_node['resid'])
+                if 'charge_group' in last_node:
+                    new_attrs.setdefault('charge_group', last_node['charge_group'] + 1)
+            graph_out.add_node(out_idx, **new_attrs)
         else:
             # Node should already exist
             # We need to find the out_index of this node. Since the
